@@ -398,12 +398,28 @@ class VM(Machine):
                 if isinstance(s, SymStream):
                     return (yield from self.stream_rule(s, fr, body, site, body_nodes))
                 it = s
-        for elem in self.iterate(it):
+        # a concrete iterable - or an interpreted generator that may itself splice an abstract stream in (`yield from stream`):
+        # then the path is cut INSIDE the generator after one arbitrary element; this loop's invariant (if it has one) is
+        # checked at that cut, so that the consumer's per-iteration obligations are not lost
+        spec = self.loop_spec(fr, site) if isinstance(site, ast.AST) else None
+        src = self.iterate(it)
+        ran = 0
+        while True:
+            try:
+                elem = next(src)
+            except StopIteration:
+                break
+            except PathEnd:
+                if spec is not None and spec.inv is not None and ran > 0:
+                    name = f"{fr.func.qualname if fr.func else '?'}::loop{self.loop_ordinal(fr, site)}"
+                    self.ctx.check(f"{name}::inv-preserved", spec.inv(self, fr))
+                raise
             if isinstance(elem, tuple) and len(elem) == 2 and elem[0] == "__substream__":
                 # an element-producing generator handed us an abstract stream to splice in
                 sig = yield from self.stream_rule(elem[1], fr, body, site, body_nodes)
             else:
                 sig = yield from body(elem)
+            ran += 1
             if sig is not None:
                 if sig[0] == "continue":
                     continue
